@@ -47,10 +47,19 @@ type Gen struct {
 	curEffects *effects
 	allEffects map[string]*effects
 	sentinels  map[*ssa.Global]bool
+	usesFrozen, freezesKnown, hasFreezes bool
+	needClosure bool
+	embedded map[string]bool
+	tracked map[string]bool
 }
 
 func loadGen(repo string, patterns []string, stubDir string) (*Gen, error) {
-	cfg := &packages.Config{Mode: packages.LoadAllSyntax, Dir: repo, BuildFlags: []string{"-tags=verif"}, Tests: false}
+	mode := packages.LoadAllSyntax
+	if os.Getenv("GVC_FASTLOAD") != "0" {
+		// module packages from source, dependencies from export data (their functions are external anyway)
+		mode = packages.LoadSyntax
+	}
+	cfg := &packages.Config{Mode: mode, Dir: repo, BuildFlags: []string{"-tags=verif"}, Tests: false}
 	pkgs, err := packages.Load(cfg, patterns...)
 	if err != nil {
 		return nil, err
@@ -67,7 +76,12 @@ func loadGen(repo string, patterns []string, stubDir string) (*Gen, error) {
 	if nerr > 0 {
 		return nil, fmt.Errorf("%d load errors", nerr)
 	}
-	prog, _ := ssautil.AllPackages(pkgs, ssa.GlobalDebug)
+	var prog *ssa.Program
+	if mode == packages.LoadAllSyntax {
+		prog, _ = ssautil.AllPackages(pkgs, ssa.GlobalDebug)
+	} else {
+		prog, _ = ssautil.Packages(pkgs, ssa.GlobalDebug)
+	}
 	prog.Build()
 	g := &Gen{repo: repo, fset: prog.Fset, pkgs: pkgs, prog: prog, spkgs: map[string]*ssa.Package{}, tpkgs: map[string]*types.Package{},
 		files: map[*token.File]*ast.File{}, cs: newContractSet(), abstract: newContractSet(), allEffects: map[string]*effects{}}
@@ -184,6 +198,125 @@ func (x *Exec) sentinelTerm(gl *ssa.Global) string {
 		vc.sentinelOrder = append(vc.sentinelOrder, c)
 	}
 	return c
+}
+
+// embeddedByValue: struct types that occur as a by-value field (or array/slice element) of some other type of the
+// module: pointers to them may designate sub-objects. All other struct pointers designate whole allocated objects.
+func (g *Gen) embeddedByValue(t types.Type) bool {
+	if g.embedded == nil {
+		g.embedded = map[string]bool{}
+		seen := map[types.Type]bool{}
+		var visit func(t types.Type)
+		visit = func(t types.Type) {
+			if seen[t] {
+				return
+			}
+			seen[t] = true
+			switch u := t.Underlying().(type) {
+			case *types.Struct:
+				for i := 0; i < u.NumFields(); i++ {
+					ft := u.Field(i).Type()
+					if _, ok := ft.Underlying().(*types.Struct); ok {
+						g.embedded[canonStructName(ft)] = true
+					}
+					visit(ft)
+				}
+			case *types.Pointer:
+				visit(u.Elem())
+			case *types.Slice:
+				if _, ok := u.Elem().Underlying().(*types.Struct); ok {
+					g.embedded[canonStructName(u.Elem())] = true
+				}
+				visit(u.Elem())
+			case *types.Array:
+				if _, ok := u.Elem().Underlying().(*types.Struct); ok {
+					g.embedded[canonStructName(u.Elem())] = true
+				}
+				visit(u.Elem())
+			case *types.Map:
+				if _, ok := u.Elem().Underlying().(*types.Struct); ok {
+					g.embedded[canonStructName(u.Elem())] = true
+				}
+				visit(u.Key())
+				visit(u.Elem())
+			}
+		}
+		for path, p := range g.tpkgs {
+			if !strings.HasPrefix(path, modulePath) {
+				continue
+			}
+			for _, n := range p.Scope().Names() {
+				if tn, ok := p.Scope().Lookup(n).(*types.TypeName); ok {
+					visit(tn.Type())
+				}
+			}
+		}
+	}
+	return g.embedded[canonStructName(t)]
+}
+
+// trackedStruct: struct types mentioned by typed(x, "T") in some contract or predicate. Only these carry a runtime
+// type tag (RType); every other allocation is tagged 0, so the allocates discipline only concerns them.
+func (g *Gen) trackedStruct(t types.Type) bool {
+	if g.tracked == nil {
+		g.tracked = map[string]bool{}
+		var scan func(e *CExpr, pkg string)
+		scan = func(e *CExpr, pkg string) {
+			if e == nil {
+				return
+			}
+			if e.Op == "call" && e.Name == "typed" && len(e.Args) == 2 && e.Args[1].Op == "str" {
+				name := e.Args[1].Name
+				if p := g.tpkgs[pkg]; p != nil {
+					if obj := p.Scope().Lookup(name); obj != nil {
+						g.tracked[canonStructName(obj.Type())] = true
+					}
+				}
+				if k := strings.LastIndex(name, "."); k >= 0 {
+					for path, p := range g.tpkgs {
+						if strings.HasSuffix(path, "/"+name[:k]) || path == name[:k] {
+							if obj := p.Scope().Lookup(name[k+1:]); obj != nil {
+								g.tracked[canonStructName(obj.Type())] = true
+							}
+						}
+					}
+				}
+			}
+			for _, a := range e.Args {
+				scan(a, pkg)
+			}
+		}
+		for _, pd := range g.cs.Preds {
+			scan(pd.Body, pd.Pkg)
+		}
+		for _, c := range g.cs.Funcs {
+			for _, cl := range c.Req {
+				scan(cl.Expr, c.Pkg)
+			}
+			for _, cl := range c.Ens {
+				scan(cl.Expr, c.Pkg)
+			}
+			for _, cls := range c.Inv {
+				for _, cl := range cls {
+					scan(cl.Expr, c.Pkg)
+				}
+			}
+		}
+	}
+	return g.tracked[canonStructName(t)]
+}
+
+func (g *Gen) anyFreezes() bool {
+	if g.freezesKnown {
+		return g.hasFreezes
+	}
+	g.freezesKnown = true
+	for _, c := range g.cs.Funcs {
+		if len(c.Freezes) > 0 {
+			g.hasFreezes = true
+		}
+	}
+	return g.hasFreezes
 }
 
 func (g *Gen) fileOf(pos token.Pos) *ast.File {
@@ -309,6 +442,12 @@ func (g *Gen) inlineContract(fn *ssa.Function) *Contract {
 
 func (g *Gen) lookupContract(callerPkg *types.Package, pkgPath, name, full string) *Contract {
 	samePkg := callerPkg != nil && callerPkg.Path() == pkgPath
+	// client-specific view of a dependency: `func <full> @<callerpkgname>`
+	if callerPkg != nil && !samePkg {
+		if c, ok := g.cs.Funcs["|"+full+" @"+callerPkg.Name()]; ok {
+			return c
+		}
+	}
 	if !samePkg {
 		if c, ok := g.cs.Funcs["|"+full]; ok {
 			return c
@@ -390,6 +529,13 @@ func (g *Gen) resolve(x *Exec, cc *ssa.CallCommon) *target {
 	}
 	if p, ok := v.(*ssa.Parameter); ok {
 		tg.display = "param " + p.Name()
+	}
+	if c, ok := v.(*ssa.Call); ok {
+		// a function value returned by a statically known function: contract `func result <callee>`
+		if f, ok := c.Call.Value.(*ssa.Function); ok && f.Pkg != nil {
+			tg.display = "result " + relName(f)
+			tg.pkg = f.Pkg.Pkg
+		}
 	}
 	if e, ok := v.(*ssa.Extract); ok {
 		_ = e
@@ -644,6 +790,7 @@ func (g *Gen) verifyFunc(fn *ssa.Function, con *Contract) (vc *VC, err error) {
 	x.entry0 = x.entry
 	st.entry = x.entry
 	x.entryNext = vc.getNext(st)
+	vc.localsFrom = x.entryNext
 	x.run(st)
 	// postconditions and frame at every return
 	sig := fn.Signature
@@ -754,6 +901,14 @@ func (x *Exec) frameGoals(st *State, only map[string]bool) ([]frameGoal, bool) {
 		allowedWhole[envOld.compByName("ghost:"+ef.Name)] = true
 	}
 	for _, m := range con.Mods {
+		if m.MapHeap {
+			mv := envOld.eval(m.Expr)
+			if mt, ok := mv.typ.Underlying().(*types.Map); ok {
+				allowedWhole[vc.mapDom(mt)] = true
+				allowedWhole[vc.mapVal(mt)] = true
+			}
+			continue
+		}
 		if m.Heap != "" {
 			allowedWhole[envOld.compByName(m.Heap)] = true
 			continue
@@ -778,7 +933,21 @@ func (x *Exec) frameGoals(st *State, only map[string]bool) ([]frameGoal, bool) {
 			continue
 		}
 		bare := strings.Trim(k, "|")
-		if k == "next" || k == "Held" || k == "Owned" || k == "Calls" || strings.HasPrefix(bare, "armed$") || strings.HasPrefix(bare, "IterVis$") {
+		if k == "RType" {
+			// allocation discipline: tags change only to the struct types the contract declares (`allocates`)
+			now, before := vc.get(st, k), vc.get(x.entry0, k)
+			if now == before {
+				continue
+			}
+			alts := []string{eq("(select "+now+" x)", "(select "+before+" x)")}
+			for _, tn := range con.Allocates {
+				t := x.newEnv(st, st).resolveType(tn)
+				alts = append(alts, eq("(select "+now+" x)", vc.structTID(t)))
+			}
+			out = append(out, frameGoal{k, "allocates", "(forall ((x Int)) (! " + or(alts...) + " :pattern ((select " + now + " x))))"})
+			continue
+		}
+		if k == "next" || k == "Held" || k == "Owned" || k == "Calls" || k == "Spawns" || k == "Frozen" || strings.HasPrefix(bare, "armed$") || strings.HasPrefix(bare, "IterVis$") {
 			continue
 		}
 		if allowedWhole[k] {
